@@ -956,26 +956,55 @@ func c20Notify(c *core.Ctx, r *core.Report) {
 			continue
 		}
 		bo, ok := ifi.Cond.(*ssa.BinOp)
-		if !ok || bo.Op != token.EQL || !hasField(bo.X, lastF) {
+		if !ok || (bo.Op != token.EQL && bo.Op != token.NEQ) || !hasField(bo.X, lastF) {
 			continue
 		}
-		// inside `cur == Normal`
+		// inside `cur == Normal` (true edge of ==, false edge of !=)
 		under := false
 		for d := b; d != nil && d.Idom() != nil; d = d.Idom() {
-			if di, ok := core.LastIf(d.Idom()); ok && d.Idom().Succs[0] == d && len(d.Preds) == 1 {
-				if dbo, ok := di.Cond.(*ssa.BinOp); ok && dbo.Op == token.EQL && dbo.X == ssa.Value(cur) {
-					if k, ok := core.ConstIntValue(dbo.Y); ok && k == normal {
+			if di, ok := core.LastIf(d.Idom()); ok && len(d.Preds) == 1 {
+				if dbo, ok := di.Cond.(*ssa.BinOp); ok && (dbo.Op == token.EQL || dbo.Op == token.NEQ) && dbo.X == ssa.Value(cur) {
+					eqSucc := 0
+					if dbo.Op == token.NEQ {
+						eqSucc = 1
+					}
+					if k, ok := core.ConstIntValue(dbo.Y); ok && k == normal && d.Idom().Succs[eqSucc] == d {
 						under = true
 					}
 				}
 			}
 		}
-		tb := b.Succs[0]
-		ret, isRet := tb.Instrs[len(tb.Instrs)-1].(*ssa.Return)
-		if !under || !isRet || len(tb.Preds) != 1 {
+		if !under {
 			continue
 		}
-		if k, ok := ret.Results[0].(*ssa.Const); !ok || k.Value == nil || k.Value.String() != "false" {
+		// the edge taken when the last notified state EQUALS the tested one leads only to `return false`
+		// (whatever the spelling: nested ifs with their own returns, or one merged condition whose arms
+		// share the return)
+		eqSucc := 0
+		if bo.Op == token.NEQ {
+			eqSucc = 1
+		}
+		tb := b.Succs[eqSucc]
+		onlyFalse, nRet := true, 0
+		seenB := map[*ssa.BasicBlock]bool{tb: true}
+		work := []*ssa.BasicBlock{tb}
+		for len(work) > 0 {
+			x := work[len(work)-1]
+			work = work[:len(work)-1]
+			if ret, isRet := x.Instrs[len(x.Instrs)-1].(*ssa.Return); isRet {
+				nRet++
+				if k, ok := ret.Results[0].(*ssa.Const); !ok || k.Value == nil || k.Value.String() != "false" {
+					onlyFalse = false
+				}
+			}
+			for _, sc := range x.Succs {
+				if !seenB[sc] {
+					seenB[sc] = true
+					work = append(work, sc)
+				}
+			}
+		}
+		if !onlyFalse || nRet == 0 {
 			continue
 		}
 		if k, ok := core.ConstIntValue(bo.Y); ok && k == inactive {
@@ -1475,7 +1504,12 @@ func pathShape(c *core.Ctx, v ssa.Value) []string {
 // configuration getters as {Name()}, any other run-time piece as {}.  fmt.Sprintf formats are expanded and
 // same-package helpers that return a name are inlined (one template per return).
 func pathTemplates(c *core.Ctx, v ssa.Value, depth int) []string {
-	if depth > 6 {
+	return pathTemplatesRec(c, v, depth, map[*ssa.Phi]bool{})
+}
+
+// depth counts inlined helpers only (a long concatenation is not a deep one); phis are visited once.
+func pathTemplatesRec(c *core.Ctx, v ssa.Value, depth int, onPath map[*ssa.Phi]bool) []string {
+	if depth > 4 {
 		return []string{"{}"}
 	}
 	cross := func(a, b []string) []string {
@@ -1493,13 +1527,18 @@ func pathTemplates(c *core.Ctx, v ssa.Value, depth int) []string {
 		return []string{s}
 	case *ssa.BinOp:
 		if x.Op == token.ADD {
-			return cross(pathTemplates(c, x.X, depth+1), pathTemplates(c, x.Y, depth+1))
+			return cross(pathTemplatesRec(c, x.X, depth, onPath), pathTemplatesRec(c, x.Y, depth, onPath))
 		}
 	case *ssa.Phi:
+		if onPath[x] {
+			return []string{"{}"}
+		}
+		onPath[x] = true
 		var out []string
 		for _, e := range x.Edges {
-			out = append(out, pathTemplates(c, e, depth+1)...)
+			out = append(out, pathTemplatesRec(c, e, depth, onPath)...)
 		}
+		delete(onPath, x)
 		return out
 	case *ssa.Call:
 		f := core.CalleeFunc(x)
@@ -1550,7 +1589,7 @@ func pathTemplates(c *core.Ctx, v ssa.Value, depth int) []string {
 						if mi, ok := a.(*ssa.MakeInterface); ok {
 							a = mi.X
 						}
-						piece = pathTemplates(c, a, depth+1)
+						piece = pathTemplatesRec(c, a, depth, onPath)
 					} else {
 						piece = []string{"{}"}
 					}
@@ -1568,7 +1607,7 @@ func pathTemplates(c *core.Ctx, v ssa.Value, depth int) []string {
 		if callee := x.Call.StaticCallee(); callee != nil && callee.Pkg == x.Parent().Pkg && len(callee.Blocks) > 0 && callee.Signature.Results().Len() == 1 {
 			var out []string
 			for _, ret := range core.Returns(callee) {
-				out = append(out, pathTemplates(c, ret.Results[0], depth+1)...)
+				out = append(out, pathTemplatesRec(c, ret.Results[0], depth+1, onPath)...)
 			}
 			return out
 		}
